@@ -32,7 +32,7 @@ HARNESSES = [
     H("c16_mem_writer::c16_system_info", loops=L(130), desc="MDRawSystemInfo"),
     H("c16_mem_writer::c16_from_array_memdesc", loops=L(60), desc="alloc_from_array, 0..3 elements"),
     H("c16_mem_writer::c16_write_bytes", loops=L(20), desc="write_bytes"),
-    H("c16_mem_writer::c16_context", loops={"extend_with": 1240, "CONTEXT_AMD64": 520}, desc="RawContextCPU (1232 bytes)", timeout=2400, tier="thorough"),
+    H("c16_mem_writer::c16_context", loops={"CONTEXT_AMD64": 520}, desc="RawContextCPU (1232 bytes), real derived serializer, every register offset", timeout=3000, tier="thorough"),
     H("c16_mem_writer::c16_string_u0000", loops=L(20), desc="string 'a' + U+0000 + 'z'"),
     H("c16_mem_writer::c16_string_u007f", loops=L(20), desc="string 'a' + U+007F + 'z'"),
     H("c16_mem_writer::c16_string_u0080", loops=L(20), desc="string 'a' + U+0080 + 'z'"),
